@@ -215,3 +215,39 @@ func H_C06_tsfrac() {
 	vAfter(r)
 	vcover("end")
 }
+
+// H_C06_decode: the untyped Decoder and DecodeTo(&interface{}) on top of the Reader over n symbolic bytes (binary after
+// the version marker: at top level, or as the body of a list / struct / annotation wrapper; param kind as in H_C07_bin):
+// Decode is called until it reports an error or ErrNoInput; nothing may panic, and the loop must end.
+func H_C06_decode() {
+	n := vparam("n", 1)
+	b := vnondetBytes(n)
+	switch kind := vparam("kind", 0); kind {
+	case 0xB, 0xC:
+		b = vCat(vTLV(byte(kind)<<4, b...), []byte{0x20})
+	case 0xD:
+		b = vCat(vTLV(0xD0, vCat([]byte{0x84}, b)...), []byte{0x20})
+	case 0xE:
+		b = vCat(vTLV(0xE0, vCat([]byte{0x81, 0x84}, b)...), []byte{0x20})
+	}
+	doc := vWithBVM(b)
+	d := NewDecoder(NewReaderBytes(doc))
+	steps := 0
+	for {
+		_, err := d.Decode()
+		if err != nil {
+			break
+		}
+		steps++
+		vassert(steps <= len(doc), "Decode makes progress: no more values than input bytes")
+	}
+	d2 := NewDecoder(NewReaderBytes(doc))
+	for i := 0; i <= len(doc); i++ {
+		var x interface{}
+		if d2.DecodeTo(&x) != nil {
+			break
+		}
+	}
+	vobserve("n", uint64(steps))
+	vcover("end")
+}
